@@ -266,17 +266,39 @@ def check_case(case, ctx=None, fresh=False):
             msg = c03.equivalent(ta, tc, case.get("sched", 0))
             if msg:
                 # same model, different diagram: is it the route, or is the
-                # learner unstable on this job set (C03's subject)?
-                learn.SCHED.reseed(case.get("sched", 0))
-                rc2, _ = cli(argv[:1] + [outC + "2"] + argv[2:], fresh)
-                if rc2 == 0:
-                    with open(os.path.join(
-                            outC + "2", name.replace(" ", "_") + ".puml")) as f:
-                        tc2 = f.read()
-                    if c03.equivalent(tc, tc2, 0):
-                        if ctx:
-                            ctx.count("learner_unstable_on_same_files_(C03)")
-                        continue
+                # learner unstable on this job set (C03's subject)?  Both
+                # routes are run again under further schedule seeds; when
+                # either route also produces the other one's language the
+                # difference is not the route's.
+                unstable = False
+                for k in range(1, 5):
+                    learn.SCHED.reseed(case.get("sched", 0) + 1000 * k)
+                    oc = f"{outC}r{k}"
+                    rc2, _ = cli(argv[:1] + [oc] + argv[2:], fresh)
+                    if rc2 == 0:
+                        with open(os.path.join(
+                                oc, name.replace(" ", "_") + ".puml")) as f:
+                            tc2 = f.read()
+                        if not c03.equivalent(ta, tc2, 0) or \
+                                c03.equivalent(tc, tc2, 0):
+                            unstable = True
+                            break
+                    learn.SCHED.reseed(case.get("sched", 0) + 1000 * k + 1)
+                    oa = f"{outA}r{k}"
+                    rc2, _ = cli(["-o", oa, "otel2puml", "-c", cfgp, "-om"],
+                                 fresh)
+                    if rc2 == 0:
+                        with open(os.path.join(
+                                oa, name.replace(" ", "_") + ".puml")) as f:
+                            ta2 = f.read()
+                        if not c03.equivalent(tc, ta2, 0) or \
+                                c03.equivalent(ta, ta2, 0):
+                            unstable = True
+                            break
+                if unstable:
+                    if ctx:
+                        ctx.count("learner_unstable_on_same_data_(C03)")
+                    continue
                 raise Violation(
                     f"workflow {name!r}: otel2puml and otel2pv+pv2puml give "
                     f"different languages: {msg}\notel2puml:\n{ta}\n"
